@@ -135,3 +135,16 @@ reg('C10',
     '{0,1,2,3,255}; molecules near the 4095-atom / 64 KiB offset boundary are not explored.',
     'model checking of a source-derived model (field-exhaustive enumeration) + conformance replay of published implementation traces',
     'DESIGN.md s3.5, s5 C10')
+
+reg('C09',
+    'The bit layout is explored field by field and pairwise: query element 1..118 (plus element lists, any-atom, any-metal) x molecule element 1..118; '
+    'every element with (unspecified + every tabulated isotope)^2; charge -4..4 x radical on both sides; hydrogen specs (singletons, pairs) x 0..4/None; '
+    'hybridisation subsets x 1..4; neighbour and heteroatom specs (singletons, pairs in 0..14) x 0..14 real stars; ring-size specs x real rings 3..66, 70 '
+    'and spiro pairs; every pair of six fields at {min, interior, max} against the full boundary product on the molecule side; ring closures landing on '
+    'every element; then SMARTS of C07/C08/C19 x D(<=5,1), cage/metallacycle targets and the corpus stride, with and without searching scope. For each '
+    '(query, molecule) the mapping set of the bit-mask path (model of _isomorphism.pyx fed by the real encoders) must equal that of the pure-Python matcher.',
+    'Trusted: vf/pyxmodel as the semantics of _isomorphism.pyx (packed structs, pointer casts, 64-bit masks; out-of-bounds and uninitialised reads are '
+    'reported). No compiled matcher exists here and no published traces exist for it, so model fidelity rests on construction plus agreement on the '
+    'explored space. Three by-design divergences are known findings keyed by call site (Lv/Ts/Og shared bit, unknown hydrogens encoded as 0, ring sizes > 65).',
+    'field-exhaustive enumeration of the mask layout and of query x molecule pairs; source-derived model of the compiled matcher vs reference matcher',
+    'DESIGN.md s3.5, s5 C09')
